@@ -13,6 +13,7 @@ import (
 	"go/types"
 	"sort"
 	"strings"
+	"time"
 
 	"verifsim/world"
 )
@@ -122,6 +123,11 @@ func ApplyReadFault(kind string, name string, b []byte) ([]byte, error) {
 	switch {
 	case kind == "eio":
 		return nil, fmt.Errorf("read %s: input/output error", name)
+	case kind == "stall":
+		// a slow disk: the bytes are right, they just take a while (130 ms of real
+		// time - the one place where the simulation waits; no decision depends on it)
+		time.Sleep(130 * time.Millisecond)
+		return b, nil
 	case kind == "empty":
 		return nil, nil
 	case strings.HasPrefix(kind, "short:"):
